@@ -143,7 +143,37 @@ def canonical_name(ct):
             i = j
         else:
             return ""
-    return " ".join(out)
+    # defaulted template arguments are printed by the compiler although the source does not spell them:
+    # list / list_tail / list_must< R, S, P = void >, pad< R, P1, P2 = P1 >
+    pos = [0]
+
+    def parse():
+        name = out[pos[0]]
+        pos[0] += 1
+        args = None
+        if pos[0] < len(out) and out[pos[0]] == "<":
+            pos[0] += 1
+            args = []
+            while out[pos[0]] != ">":
+                args.append(parse())
+                if out[pos[0]] == ",":
+                    pos[0] += 1
+            pos[0] += 1
+        if args is not None and len(args) == 2:
+            if name in ("list", "list_tail", "list_must"):
+                args.append("void")
+            elif name == "pad":
+                args.append(args[1])
+        if args is not None and not args:
+            return name + " < >"
+        return name if args is None else name + " < " + " , ".join(args) + " >"
+    try:
+        txt = parse()
+        if pos[0] != len(out):
+            return ""
+        return txt
+    except IndexError:
+        return ""
 
 
 def chars(s):
@@ -804,7 +834,7 @@ def emit_grammar(g, gi, cfgset_macro="VF_CFGS"):
         for sel in g.selectors:
             mm = [sel.get(m.ctype, 0) if m.ctype else 0 for m in L.nodes]
             sel_txt += "e.sel_modes.push_back( { %s } ); " % ", ".join(str(x) for x in mm)
-    extra_txt = sel_txt + ("e.visited_check = true; " if visited_ok else "") + "".join("e.extra.push_back( std::string( \"%s\", %d ) ); " % ("".join("\\x%02x" % ord(c) for c in x), len(x)) for x in g.extra)
+    extra_txt = sel_txt + ("e.visited_check = true; " if visited_ok else "") + ("e.has_action_rule = true; " if "action" in ops_used else "") + "".join("e.extra.push_back( std::string( \"%s\", %d ) ); " % ("".join("\\x%02x" % ord(c) for c in x), len(x)) for x in g.extra)
     if g.maxlen:
         extra_txt += "e.maxlen_quick = %d; e.maxlen_thorough = %d; " % (g.maxlen[0], g.maxlen[1])
     out.append("static const bool registered = [] { vf::gram_entry e; e.name = \"g%d\"; e.json = R\"VFJ(%s)VFJ\"; e.pretty = R\"VFP(%s)VFP\"; e.build = &build; e.alphabet = std::string( \"%s\", %d ); e.nslots = %d; e.nonempty_mask = %du; e.scripted_veto = %s; e.scripted_throw = %s; %s %s( e, R0, act ); vf::grammars().push_back( e ); return true; }();"
